@@ -31,6 +31,8 @@ def _strategy(tier):
                                "args": st.lists(_arg(), min_size=1, max_size=2)}),
         st.fixed_dictionaries({"cls": st.just("DampedPhaseSpaceFactor"), "name": st.sampled_from([None, "N", r"\rho_d"]),
                                "args": st.lists(_arg(), min_size=3, max_size=4)}),
+        st.fixed_dictionaries({"cls": st.just("WithClassVariables"), "tag": st.sampled_from(["t", "", "abc"]),
+                               "args": st.lists(_arg(), min_size=1, max_size=1)}),
         st.fixed_dictionaries({"cls": st.just("DeprecatedPower"), "name": st.sampled_from([None, "N", r"\rho_d"]),
                                "args": st.lists(_arg(), min_size=2, max_size=2)}),
         st.fixed_dictionaries({"cls": st.just("UnevaluatedExpression"), "name": st.sampled_from([None, "N"]),
@@ -56,6 +58,8 @@ def build(desc):
         if len(args) == 1:
             return cc.AttrBetween(args[0], cc.FUNCTORS[desc["functor"]])
         return cc.AttrBetween(args[0], cc.FUNCTORS[desc["functor"]], args[1])
+    if desc["cls"] == "WithClassVariables":
+        return cc.WithClassVariables(args[0], tag=desc["tag"]) if desc["tag"] != "t" else cc.WithClassVariables(args[0])
     if desc["cls"] == "DeprecatedPower":
         return cc.DeprecatedPower(*args, name=desc["name"])
     if desc["cls"] == "UnevaluatedExpression":  # the deprecated base class itself (tests/dynamics/test_deprecated.py)
